@@ -248,6 +248,13 @@ func (b *Builder) expandBody(nf *ssa.Function, fn *ssa.Function) {
 			}
 		}
 	}
+	if len(b.Inlined[nf]) > 0 {
+		dropDeadClosures(nf)
+		finish(nf)
+		if forwardStructLoads(nf) {
+			finish(nf)
+		}
+	}
 	// jump threading: an inlined `return v, err` followed by the caller's `if err != nil` is a
 	// φ tested in the continuation; route every edge whose outcome is known straight to its target
 	if len(b.Inlined[nf]) > 0 {
@@ -368,8 +375,17 @@ func hasDeferOrRecover(g *ssa.Function) bool {
 }
 
 func (b *Builder) inlinable(caller *ssa.Function, call *ssa.Call, g *ssa.Function, ch []*ssa.Function) bool {
-	if len(g.Blocks) == 0 || len(ch) >= b.MaxDepth || g.Parent() != nil || len(g.FreeVars) > 0 {
+	if len(g.Blocks) == 0 || len(ch) >= b.MaxDepth {
 		return false
+	}
+	// a function literal is inlined where it is called with a known closure value (a functional
+	// parameter of an inlined helper bound to a literal at the call site)
+	if g.Parent() != nil || len(g.FreeVars) > 0 {
+		mc, isMC := call.Call.Value.(*ssa.MakeClosure)
+		_, isFn := call.Call.Value.(*ssa.Function)
+		if !(isMC && len(mc.Bindings) == len(g.FreeVars)) && !(isFn && len(g.FreeVars) == 0) {
+			return false
+		}
 	}
 	if len(call.Call.Args) != len(g.Params) || call.Call.IsInvoke() {
 		return false
@@ -423,6 +439,11 @@ func (c *cloner) inlineAt(blk *ssa.BasicBlock, i int, call *ssa.Call, g *ssa.Fun
 	sub := &cloner{b: c.b, nf: nf, vm: map[ssa.Value]ssa.Value{}, bm: map[*ssa.BasicBlock]*ssa.BasicBlock{}}
 	for k, p := range g.Params {
 		sub.vm[p] = call.Call.Args[k]
+	}
+	if mc, ok := call.Call.Value.(*ssa.MakeClosure); ok {
+		for k, fv := range g.FreeVars {
+			sub.vm[fv] = mc.Bindings[k]
+		}
 	}
 	blocks := sub.cloneBlocks(g, " ["+g.Name()+"]")
 	myChain := append(append([]*ssa.Function(nil), chain[call]...), g)
